@@ -8,6 +8,7 @@ func init() {
 		Explanation: "Decides structural necessary conditions of the route-table lifecycle: R1 every mutation of a child list is followed by a rebuild of that node's first-byte index on every successful path (interprocedural, helpers summarised as dirty/cleaning); R2 the index builder resets the map before refilling and inserts literal children only; R3 (= C04.R1) the method summary Routes() reads is rebuilt after every handler-map mutation; R4 the clean and routes walks visit every child (no early exit); R8 node.clean tests every child against the prefix; R9 (= C02.R3) every change of a child list that is not an order-preserving removal (append, swap-remove, …) is followed by the stable sort by kind priority, so that removals never change which live candidate wins; R5 Remove(pattern) without methods drops the whole handler map; R6 the Remove/Clean facades of Router, Prefix and Resource are pure forwarders (subset of C19). " +
 			"R17 the sort key of a node reads only its segment (K9 while priority() reads the child list). " +
 			"R18 a split stores the new head into the element that held the node; R19 (= C01.R22) end point = empty suffix. " +
+			"R20 every registration adds the methods it installed to the tree-wide counters; R21 (= C02.R21) the split point of two segment texts, for all pairs of texts. " +
 			"Not decided: that every live route is still served and that the winner is the priority winner for all histories (needs an executable reference model — a different technique).",
 		Assumptions: commonAssumptions,
 		Run: func(c *Ctx) {
@@ -33,6 +34,7 @@ func init() {
 			ruleSplitKeepsThePosition(c, "R18")
 			ruleEndpointIsAnEmptySuffix(c, "R19")
 			ruleInstallsAreCounted(c, "R20")
+			ruleSplitPointAutomaton(c, "R21")
 		},
 	})
 }
